@@ -812,9 +812,16 @@ def macro_recognisers_look_at_the_macro_name(ctx, rid):
             last = re.sub(r"<.*?>", "", c.name).rsplit("::", 1)[-1]
             tys = " ".join(f.locals[a[1][0]] for a in c.args if a[0] != "k")
             if last in ("first", "last", "get", "index", "split_first", "split_last", "first_mut") and "PathSegment" in tys + " ".join(c.ga):
+                if last in ("get", "index"):
+                    # only a constant 0 names the first segment
+                    k = c.args[1] if len(c.args) > 1 else None
+                    if not (k and k[0] == "k" and k[2] == 0 and not isinstance(k[2], bool)):
+                        continue
+                    last = last + "(0)"
                 acc.append(last)
         n += 1
-        ok = acc == ["last"]
+        # a recogniser that reaches the segment some other way (a slice pattern `[.., last]`, `iter().next_back()`) is not judged
+        ok = not any(a in ("first", "split_first", "first_mut", "get(0)", "index(0)") for a in acc)
         r.instance(rid, "%s looks at segments.%s" % (w, "/".join(acc) or "?"), "ok" if ok else "violation", "%s:%d" % (f.file, f.line))
         if not ok:
             r.violation(rid, "%s does not decide by the last segment of the macro path (%s)" % (w, "/".join(acc) or "none found"),
